@@ -936,6 +936,57 @@ func c02SleepRecheck(a *Anchors, r *core.Report) {
 // recvWorkerRecheck: the network receive worker re-examines its queue after Unlock (shared by
 // C02.D3 and C12.R9: a frame stranded in a receive queue is a message that is never delivered).
 func recvWorkerRecheck(a *Anchors, r *core.Report, rule, rid string) {
+	// producer side: the frame is in the queue before the producer tries the lock (a lock attempt
+	// made first can fail against a worker that has already seen the queue empty and is leaving)
+	for _, f := range funcsOfPkgs(a.P, "net/proto") {
+		var pushes, locks []ssa.Instruction
+		eachInstr(f, func(in ssa.Instruction) {
+			cc := callCommon(in)
+			if cc == nil || !cc.IsInvoke() || cc.Value.Type() != types.Type(a.QueueIface) {
+				return
+			}
+			switch cc.Method.Name() {
+			case "Push":
+				pushes = append(pushes, in)
+			case "Lock":
+				locks = append(locks, in)
+			}
+		})
+		if len(pushes) == 0 {
+			continue
+		}
+		for _, pu := range pushes {
+			q := callCommon(pu).Value
+			key := rid + "|recv-producer|" + fname(f)
+			inst := "receive producer: the frame is pushed before the queue lock is tried, and the lock is tried after every push"
+			var probs []string
+			n := 0
+			for _, l := range locks {
+				if callCommon(l).Value != q {
+					continue
+				}
+				n++
+				if !instrDominates(pu, l) {
+					probs = append(probs, "the lock attempt at "+a.P.Pos(l.Pos())+" is not preceded by the push")
+				}
+			}
+			if n == 0 {
+				continue // a function that only pushes (no worker hand-off here)
+			}
+			isLock := func(in ssa.Instruction) bool {
+				cc := callCommon(in)
+				return cc != nil && cc.IsInvoke() && cc.Method.Name() == "Lock" && cc.Value == q
+			}
+			if hit := reaches([]Point{after(pu)}, isLock, func(in ssa.Instruction) bool { return isReturn(in) || in == pu }); hit != nil {
+				probs = append(probs, "a path from the push reaches "+a.P.Pos(hit.Pos())+" without trying the lock")
+			}
+			if len(probs) > 0 {
+				r.Bad(rule, key, fname(f), a.P.Pos(pu.Pos()), inst, strings.Join(probs, "; ")+": a frame can be left in the queue with no worker")
+			} else {
+				r.OK(rule, key, fname(f), a.P.Pos(pu.Pos()), inst, "push dominates the lock attempt; every path from the push tries the lock")
+			}
+		}
+	}
 	for _, f := range funcsOfPkgs(a.P, "net/proto") {
 		var unlocks []ssa.Instruction
 		eachInstr(f, func(in ssa.Instruction) {
